@@ -25,13 +25,13 @@ pub const PROPS: &[PropDef] = &[
     PropDef { id: "C08", title: "predecessor handles designate the right entry", level: "exploration", runs: (100_000, 5_000_000), design_ref: "4/C08" },
     PropDef { id: "C09", title: "set neighbour steps walk the keys in order and stop at the ends", level: "exploration", runs: (100_000, 5_000_000), design_ref: "4/C09" },
     PropDef { id: "C10", title: "no out-of-bounds access, panic, overflow or hang within the contract", level: "exploration", runs: (160_000, 8_000_000), design_ref: "4/C10" },
-    PropDef { id: "C11", title: "arena slots never double-used or lost; storage bounded", level: "exploration", runs: (60_000, 1_500_000), design_ref: "4/C11" },
+    PropDef { id: "C11", title: "arena slots never double-used or lost; storage bounded", level: "exploration", runs: (60_000, 600_000), design_ref: "4/C11" },
     PropDef { id: "C12", title: "clear() gives a collection indistinguishable from a new one", level: "exploration", runs: (100_000, 5_000_000), design_ref: "4/C12" },
     PropDef { id: "C13", title: "sorted-list variants agree with the reference semantics", level: "exploration", runs: (120_000, 6_000_000), design_ref: "4/C13" },
     PropDef { id: "C16", title: "expired values are physically dropped from scanned bucket lists", level: "exploration", runs: (200_000, 10_000_000), design_ref: "4/C16" },
     PropDef { id: "C17", title: "map and set handles stay valid across insertions", level: "exploration", runs: (100_000, 5_000_000), design_ref: "4/C17" },
     PropDef { id: "C18", title: "a panicking user callback leaves every collection valid and un-torn", level: "fault_enumeration", runs: (24_000, 1_200_000), design_ref: "4/C18" },
-    PropDef { id: "C19", title: "ordered export allocates in proportion to the entry count", level: "exploration", runs: (4_000, 60_000), design_ref: "4/C19" },
+    PropDef { id: "C19", title: "ordered export allocates in proportion to the entry count", level: "exploration", runs: (1_600, 40_000), design_ref: "4/C19" },
     PropDef { id: "C20", title: "only live keys are handed to the caller's comparison code", level: "exploration", runs: (120_000, 6_000_000), design_ref: "4/C20" },
 ];
 
@@ -193,7 +193,7 @@ pub fn draw_plan(prop: &str, index: u64, r: &mut Rng, thorough: bool) -> RunPlan
             let churn = r.chance(1, 3);
             c.universe = (2 * n as i32 + 8).max(16);
             c.key_lo = 0;
-            if n > 70000 {
+            if n > 6000 {
                 // keep the sorted-list twin out of quadratic insertion cost
                 c.colls = C_TREE;
             }
